@@ -9,8 +9,13 @@
 //!   `CompassApp::run` on the repository's `speeds_test` network with a per-run `response_output_policy`
 //!       (end to end: `run_batch_with_responses` / `run_batch_without_responses` on the rayon pool).
 //! Case kinds (see lean/Compass/Drv/C19.lean): F one `format_response`; S one sink life cycle with 1..16 real
-//! threads writing concurrently; X a Combined sink.  Sequential results are compared with the model
-//! textually, concurrent ones as sorted lines.
+//! threads writing concurrently (chains of runs on one file); X a Combined sink, one response; B one sink life
+//! cycle at a path of any kind (missing / file / directory / no parent directory / /dev/full) in each write
+//! mode, with write failures and close; Y a Combined policy from build to close (build failures, failing
+//! members, `ResponseSink::None`); A / A0 `CompassApp::run` (policies from the run configuration or from the
+//! application's TOML, no policy, sinks that cannot be built or refuse writes); P the model's JSON reader
+//! against `serde_json::from_str`.  Sequential results are compared with the model textually, concurrent
+//! ones as sorted records.
 //! Oracle (independent of the model): the file is parsed back (serde_json per line / comma split), one intact
 //! record per response, multiset equality with what the writers got back, single header, columns in header
 //! order (reference evaluation of the mapping written here), nothing of the response lost by the write.
@@ -1799,7 +1804,13 @@ fn case_y(ctx: &mut Ctx, idx: usize, members: &[MemberSpec], nest: bool, close: 
         policies.push(Box::new(ResponseOutputPolicy::None));
         policies.push(Box::new(ResponseOutputPolicy::Combined { policies: tail }));
     }
-    let policy = ResponseOutputPolicy::Combined { policies };
+    // no member at all: half of the time the policy is `type = "none"` itself (ResponseSink::None)
+    let policy = if members.is_empty() && !nest {
+        ctx.count("Y/policy-none");
+        ResponseOutputPolicy::None
+    } else {
+        ResponseOutputPolicy::Combined { policies }
+    };
     ctx.count(&format!("Y/members-{}", members.len()));
     let out = match policy.build() {
         Err(_) => {
